@@ -11,12 +11,37 @@ UL := $(REPO)/lib/texelutillib
 INC := -I$(TL) -I$(TL)/book -I$(TL)/debug -I$(TL)/hw -I$(TL)/nn -I$(TL)/tb -I$(TL)/util \
        -I$(TL)/tb/gtb/sysport -I$(TL)/tb/gtb/compression -I$(TL)/tb/gtb/compression/lzma \
        -I$(UL) -I$(UL)/pg -I$(REPO)/app/texel -Isim
-DEFS := -DHAS_RT -DTEXEL_VERIF $(SIMD)
+DEFS = -DHAS_RT -DTEXEL_VERIF $(SIMD)
 
 ifeq ($(FLAVOUR),plain)
   CXX := g++
   CC := gcc
-  OPT := -O2 -g1
+  OPT := -O3 -g1
+  SAN :=
+  SIMSAN :=
+endif
+# SIMD build variants of the plain flavour (C07: the same seeds must give the same event-log hashes)
+ifeq ($(FLAVOUR),plain-ssse3)
+  CXX := g++
+  CC := gcc
+  OPT := -O3 -g1 -mssse3
+  SIMD := -DUSE_SSSE3
+  SAN :=
+  SIMSAN :=
+endif
+ifeq ($(FLAVOUR),plain-avx2)
+  CXX := g++
+  CC := gcc
+  OPT := -O3 -g1 -mssse3 -mavx2
+  SIMD := -DUSE_SSSE3 -DUSE_AVX2
+  SAN :=
+  SIMSAN :=
+endif
+ifeq ($(FLAVOUR),plain-avx512)
+  CXX := g++
+  CC := gcc
+  OPT := -O3 -g1 -mssse3 -mavx2 -mavx512f -mavx512bw -mavx512vnni
+  SIMD := -DUSE_SSSE3 -DUSE_AVX2 -DUSE_AVX512
   SAN :=
   SIMSAN :=
 endif
@@ -35,8 +60,8 @@ ifeq ($(FLAVOUR),tsan)
   SIMSAN :=
 endif
 
-CXXFLAGS := -std=c++11 $(OPT) -Wall -Wno-misleading-indentation -Wno-unused-result -Wno-psabi -Wno-unknown-warning-option -Wno-unused-private-field -Wno-deprecated-declarations $(DEFS) $(INC)
-CFLAGS := $(OPT) $(DEFS) $(INC) -w
+CXXFLAGS = -std=c++11 $(OPT) -Wall -Wno-misleading-indentation -Wno-unused-result -Wno-psabi -Wno-unknown-warning-option -Wno-unused-private-field -Wno-deprecated-declarations $(DEFS) $(INC)
+CFLAGS = $(OPT) $(DEFS) $(INC) -w
 
 WRAPS := pthread_mutex_lock pthread_mutex_trylock pthread_mutex_unlock pthread_cond_wait pthread_cond_timedwait \
          pthread_cond_clockwait pthread_cond_signal pthread_cond_broadcast pthread_create pthread_join \
